@@ -288,6 +288,28 @@ def check_hashdata(rep, prog, rid, only_types=None):
     return n
 
 
+def expand_new_method(prog, text):
+    """`X.m()` where m is a NEW method (not in the reference vocabulary) with a single definition and no parameters is what that
+    method returns for receiver X: `pub.__bodybytearray__()` introduced by a refactoring is judged by its body, like any inlined
+    helper (the canonicaliser cannot inline it when the receiver's class is not known statically)."""
+    from .vocab import FUNCTIONS
+    for _ in range(3):
+        m = re.match(r'^(.*)\.(\w+)\(\)$', text or '')
+        if not m or m.group(2) in FUNCTIONS or not _balanced(m.group(1)):
+            return text
+        defs = [f for f in prog.all_functions() if f.name == m.group(2) and f.cls is not None]
+        if len(defs) != 1 or len(defs[0].params) != 1:
+            return text
+        rets = set()
+        for s in Interp(prog, Scenario()).run(defs[0], self_val=Sym(m.group(1), nonnull=True)):
+            if s.raised is None:
+                rets.add(render(s.ret) if s.ret is not None else 'None')
+        if len(rets) != 1:
+            return text
+        text = next(iter(rets))
+    return text
+
+
 def check_subject_hashdata(rep, prog, rid):
     """PGPKey.hashdata = public key packet body; PGPUID.hashdata = user id body / user attribute subpackets."""
     fk = prog.method('pgpy.pgp', 'PGPKey', 'hashdata')
@@ -297,7 +319,7 @@ def check_subject_hashdata(rep, prog, rid):
         outs = Interp(prog, sc).run(fk)
         for s in outs:
             exp = sl('%s.__bytearray__()' % X, ('len(%s.header)' % X, ''))
-            found = render(s.ret) if s.ret is not None else '<no return>'
+            found = expand_new_method(prog, render(s.ret)) if s.ret is not None else '<no return>'
             rep.check(found == exp, rid, 'PGPKey.hashdata', 'is_public=%s: return %s' % (public, found),
                       'key hashdata must be the body of the PUBLIC key packet (packet minus header)',
                       where=fk.where, expected=exp, found=found, scenario='is_public=%s' % public)
@@ -308,7 +330,7 @@ def check_subject_hashdata(rep, prog, rid):
         outs = Interp(prog, sc).run(fu)
         exp = sl('self._uid.__bytearray__()', ('len(self._uid.header)', '')) if uid else 'self._uid.subpackets.__bytearray__()'
         for s in outs:
-            found = render(s.ret) if s.ret is not None else '<no return>'
+            found = expand_new_method(prog, render(s.ret)) if s.ret is not None else '<no return>'
             rep.check(found == exp, rid, 'PGPUID.hashdata', 'is_uid=%s: return %s' % (uid, found),
                       'user id hashdata must be the user-id packet body / the user-attribute subpacket octets',
                       where=fu.where, expected=exp, found=found, scenario='is_uid=%s' % uid)
